@@ -108,4 +108,4 @@ theorem step_spec (p : Params ℝ) (hp : ParamsOk p) (s : State ℝ) (x : ℝ ×
     rw [hsms1]; ring
   rw [hsum, sub_self, mul_zero, add_zero] at key
   exact ⟨⟨by linarith, by linarith, by linarith⟩, key, ⟨by ring, by linarith, by linarith, by linarith, by linarith,
-    by linarith, by linarith⟩, rfl⟩
+    by linarith, by linarith⟩, trivial⟩
